@@ -678,6 +678,25 @@ Proof.
   rewrite (skipn_all2 (n := length d0)) by (rewrite app_length, skipn_length; lia). rewrite app_nil_r.
   rewrite skipn_skipn, app_length, <- !app_assoc. reflexivity.
 Qed.
+(* the same facts in exactly the shape the generated code and the model's own checks have (cheap side conditions) *)
+Lemma zlen_fill (out d0 : list Z) : (length out <= length d0)%nat -> zlen (fill out d0) = Z.of_nat (length d0).
+Proof. intros H. unfold zlen. rewrite fill_length by exact H. reflexivity. Qed.
+Lemma m_copy_fill' (out d0 lit : list Z) : (length out <= length d0)%nat ->
+  m_copy (fill out d0) (Z.of_nat (length out)) (zlen (fill out d0)) lit =
+  Ret (fill (out ++ firstn (length d0 - length out) lit) d0, Z.of_nat (length (firstn (length d0 - length out) lit))).
+Proof. intros H. apply m_copy_fill; [reflexivity|apply zlen_fill, H|exact H]. Qed.
+Lemma m_set_fill' (out d0 : list Z) v : (length out + length [v] <= length d0)%nat ->
+  m_set (fill out d0) (Z.of_nat (length out)) v = Ret (fill (out ++ [v]) d0).
+Proof. intros H. cbn [length] in H. apply m_set_fill; [reflexivity|lia]. Qed.
+Lemma m_set_fill_out' (out d0 : list Z) v : (length d0 < length out + length [v])%nat ->
+  m_set (fill out d0) (Z.of_nat (length out)) v = Panic.
+Proof. intros H. cbn [length] in H. apply m_set_fill_out; [reflexivity|lia]. Qed.
+Lemma m_slice_fill_tail' (out d0 : list Z) : (length out <= length d0)%nat ->
+  m_slice (fill out d0) (Z.of_nat (length out)) (zlen (fill out d0)) = Ret (skipn (length out) d0).
+Proof. intros H. apply m_slice_fill_tail; [reflexivity|apply zlen_fill, H|exact H]. Qed.
+Lemma splice_fill' (out d0 bs : list Z) : (length out + length bs <= length d0)%nat ->
+  splice (fill out d0) (Z.of_nat (length out)) (zlen (fill out d0)) (bs ++ skipn (length bs) (skipn (length out) d0)) = fill (out ++ bs) d0.
+Proof. intros H. apply splice_fill; [reflexivity|apply zlen_fill; lia|exact H]. Qed.
 Lemma swrap32_rune v : 0 <= v <= 1114111 -> swrap 32 v = v.
 Proof. intros H. unfold swrap. change (2 ^ (32 - 1)) with 2147483648. change (2 ^ 32) with 4294967296. rewrite Z.mod_small by lia. lia. Qed.
 Lemma pu_step_nonneg base maxv n c n1 : pu_step base maxv n c = inl n1 -> 0 <= n1.
@@ -841,6 +860,7 @@ End ParseFuel.
 #[local] Hint Rewrite app_length firstn_length skipn_length repeat_length map_length : lens.
 Ltac fill_side :=
   first [ reflexivity | lia | (cbn [length] in *; lia)
+        | (unfold zlen; rewrite ?fill_length by (autorewrite with lens; cbn [length]; lia); autorewrite with lens; cbn [length] in *; lia)
         | (unfold zlen in *; rewrite ?fill_length in * by (autorewrite with lens; cbn [length]; lia); autorewrite with lens in *; cbn [length] in *; lia) ].
 (* after the literal run has been copied: what was written so far becomes a variable (only its length matters from here on) *)
 Ltac abstract_out :=
@@ -865,11 +885,19 @@ Ltac break_rhs :=
     | context [if ?c then _ else _] => destruct c eqn:?
     end
   end; cbn [negb andb orb].
+(* a comparison of the code that the hypotheses decide *)
+Ltac decide_cmp :=
+  match goal with
+  | |- context [?a <? ?b] => first [ rewrite (proj2 (Z.ltb_lt a b)) by lia | rewrite (proj2 (Z.ltb_ge a b)) by lia ]
+  | |- context [?a <=? ?b] => first [ rewrite (proj2 (Z.leb_le a b)) by lia | rewrite (proj2 (Z.leb_gt a b)) by lia ]
+  | |- context [?a =? ?b] => first [ rewrite (proj2 (Z.eqb_eq a b)) by lia | rewrite (proj2 (Z.eqb_neq a b)) by lia ]
+  end; cbn [negb andb orb].
 Ltac parse_eval src :=
   repeat first
     [ progress step_code
     | rewrite (slice_some src) by lia
-    | (break_rhs; zb)
+    | (break_rhs; zb; try solve [exfalso; lia])
+    | decide_cmp
     | rewrite wrap8_mod
     | rewrite swrap32_rune by lia
     | match goal with
@@ -878,6 +906,13 @@ Ltac parse_eval src :=
       | |- context [m_slice src (Z.of_nat ?na) (zlen src)] =>
           rewrite (m_slice_nat src (Z.of_nat na) (zlen src) na (length src) eq_refl eq_refl) by lia
       end
+    | (rewrite m_copy_fill' by (first [assumption | lia]); try abstract_out)
+    | rewrite m_set_fill' by (first [assumption | lia])
+    | rewrite m_set_fill_out' by (first [assumption | lia])
+    | rewrite m_slice_fill_tail' by (first [assumption | lia])
+    | rewrite encode_fill_ok by (first [assumption | lia])
+    | rewrite encode_fill_panic by (first [assumption | lia])
+    | rewrite splice_fill' by (first [assumption | lia])
     | (erewrite m_copy_fill by fill_side; try abstract_out)
     | erewrite m_set_fill by fill_side
     | erewrite m_set_fill_out by fill_side
@@ -885,7 +920,7 @@ Ltac parse_eval src :=
     | rewrite encode_fill_ok by fill_side
     | rewrite encode_fill_panic by fill_side
     | erewrite splice_fill by fill_side
-    | (break_if; zb) ].
+    | (break_if; zb; try solve [exfalso; lia]) ].
 Ltac parse_leaf := first [ reflexivity | (exfalso; fill_side) | (repeat f_equal; fill_side) ].
 
 Ltac parse_shape pk c b p K fuel W P prefix base bits maxv emit pfx_tac :=
